@@ -95,6 +95,17 @@ R5 = {
  'C19-recycle-loopvar-alias':'caught by C10 (fourth independent delivery of this mechanism)',
  'C20-trigger-guard':'no event handler that closes the channel before it panics; variant 3',
 }
+R6 = {
+ 'C03-tail-timeout-noclose':'the exception fired into the pipeline was always a plain error; it is now also a timeout net.Error and a wrapped one',
+ 'C07-assert-length-partial':'transport write faults were injected under Write1 only; fault kind 3 sends messages through the pipeline (Channel.Write -> head handler) while a Flush fails, i.e. a low-level write that reports (n > 0, error)',
+ 'C08-lengthfield-max-before-adjust':'with the configured maxima a frame just above the maximum never fitted into the stream, so it was rejected as truncated anyway; two configurations with small maxima added',
+ 'C09-writev-flush-unlocked':'caught by C12 (race inside the buffered transport; same mechanism as a round-2 delivery)',
+ 'C10-empty-write-skips-clone':'empty payloads were fresh zero-capacity slices; `ZZ_C10_EmptyWrite`: an empty view of a caller-owned 1024-capacity scratch buffer, precise pool model, the caller keeps using its buffer',
+ 'C12-empty-write-noclone':'caught by C10 (`ZZ_C10_EmptyWrite`); the race itself is between the application and the framework, which the monitor - restricted to repository code - does not watch',
+ 'C13-shutdown-skipped-when-context-already-done':'the bootstrap never ran on a user context; scenario bit 64 (WithContext, cancelled just before Shutdown)',
+ 'C14-writev-single-alias':'caught by C10 (snapshot semantics; fourth delivery of this mechanism)',
+ 'C20-trigger-exception-from-context':'the exception handler always sat behind the idle handler; `ZZ_C20_PanicRouting` puts it in front',
+}
 rows = []
 for d in sorted(glob.glob('/verif/seeded/*/')):
     m = json.load(open(d + 'meta.json'))
@@ -111,4 +122,4 @@ def table(rnd, notes):
     return '\n'.join(out)
 if __name__ == '__main__':
     import sys
-    print(table(int(sys.argv[1]), {'1': R1, '2': R2, '3': R3, '4': R4, '5': R5}[sys.argv[1]]))
+    print(table(int(sys.argv[1]), {'1': R1, '2': R2, '3': R3, '4': R4, '5': R5, '6': R6}[sys.argv[1]]))
